@@ -161,30 +161,41 @@ func init() {
 		SimTimeUnit: "reconciliation steps",
 	})
 	add(&simkit.Check{
-		Property: "C05",
-		Parts:    []simkit.Part{{Name: "schemasim-c05", Fn: schemasim.Walk("C05"), Runs: map[string]int{"quick": 3000, "thorough": 120000}}},
-		Rule:     walkRule + "; oracle: row count and the multiset of rows projected on the columns that keep name and declared type, per table, across every successful apply; whole-database identity across every failed apply in a transaction",
+		Property:       "C05",
+		Parts:          []simkit.Part{{Name: "schemasim-c05", Fn: schemasim.Walk("C05"), Runs: map[string]int{"quick": 3000, "thorough": 120000}}},
+		Rule:           walkRule + "; oracle: row count and the multiset of rows projected on the columns that keep name and declared type, per table, across every successful apply; whole-database identity across every failed apply in a transaction",
 		RequiredProbes: []string{"successful-apply", "populated-table-checked/alter", "populated-table-checked/rebuild", "failed-apply-rolled-back", "row-inserted"},
 		RequiredFaults: []string{"statement-error", "connection-abandoned"},
 		Real:           walkReal, Stub: walkStub, Assumptions: append([]string{"a nullable column that becomes NOT NULL cannot keep its NULLs: such a column is compared only if it held none", "rows are matched as multisets (every generated cell value is unique), not by rowid"}, walkAssume...),
 		SimTimeUnit: "reconciliation steps",
 	})
 	add(&simkit.Check{
-		Property: "C03",
-		Parts:    []simkit.Part{{Name: "schemasim-c03", Fn: schemasim.Walk("C03"), Runs: map[string]int{"quick": 2500, "thorough": 100000}}},
-		Rule:     walkRule + "; oracle on every state a successful apply reached: HCL export evaluates back to the inspected schema (both directions), two inspections give identical HCL, the SQL export (plan empty -> inspected, dump mode) executes on a fresh engine and recreates the same schema and the same observer catalog",
+		Property:       "C03",
+		Parts:          []simkit.Part{{Name: "schemasim-c03", Fn: schemasim.Walk("C03"), Runs: map[string]int{"quick": 2500, "thorough": 100000}}},
+		Rule:           walkRule + "; oracle on every state a successful apply reached: HCL export evaluates back to the inspected schema (both directions), two inspections give identical HCL, the SQL export (plan empty -> inspected, dump mode) executes on a fresh engine and recreates the same schema and the same observer catalog",
 		RequiredProbes: []string{"successful-apply", "export-check/alter", "export-check/rebuild", "failed-apply-left-intermediate-state"},
 		RequiredFaults: []string{"statement-error", "connection-abandoned"},
 		Real:           walkReal, Stub: walkStub, Assumptions: walkAssume,
 		SimTimeUnit: "reconciliation steps",
 	})
 	add(&simkit.Check{
-		Property: "C17",
-		Parts:    []simkit.Part{{Name: "schemasim-c17", Fn: schemasim.Walk("C17"), Runs: map[string]int{"quick": 3000, "thorough": 120000}}},
-		Rule:     walkRule + "; oracle on every successfully applied plan: flagged reversible only if every change has reverse statements; for reversible plans the down sections of the golang-migrate, goose, dbmate, flyway formatters and the liquibase rollback lines are exactly the reverse statements in reverse order, and executing them on the real database restores the starting schema and catalog",
+		Property:       "C17",
+		Parts:          []simkit.Part{{Name: "schemasim-c17", Fn: schemasim.Walk("C17"), Runs: map[string]int{"quick": 3000, "thorough": 120000}}},
+		Rule:           walkRule + "; oracle on every successfully applied plan: flagged reversible only if every change has reverse statements; for reversible plans the down sections of the golang-migrate, goose, dbmate, flyway formatters and the liquibase rollback lines are exactly the reverse statements in reverse order, and executing them on the real database restores the starting schema and catalog",
 		RequiredProbes: []string{"successful-apply", "reversible-plan", "irreversible-plan", "down-executed"},
 		RequiredFaults: []string{"statement-error"},
 		Real:           walkReal, Stub: walkStub, Assumptions: append([]string{"SQLite part only: MySQL/PostgreSQL reversibility is not claimed (no engine offline)"}, walkAssume...),
 		SimTimeUnit: "reconciliation steps",
+	})
+	add(&simkit.Check{
+		Property:       "C18",
+		Parts:          []simkit.Part{{Name: "clisim-c18", Fn: clisim.C18, ProcessLevel: true, NeedsCLI: true, Runs: map[string]int{"quick": 500, "thorough": 15000}}},
+		Rule:           "one run = a directory evolved file by file (2-6 files): each file is either derived by `migrate diff` from one schema edit (so SQLite's rebuild procedure appears when it would for a user) or hand-written from 1-3 operations (CREATE TABLE, ADD COLUMN, CREATE INDEX, DROP TABLE, ALTER TABLE DROP COLUMN of a stored or virtual column, rebuild that omits a column, additive rebuild, create-and-drop of a temporary table); then `migrate lint --latest N` for a drawn N; the reference model tracks which tables and non-virtual columns existed before each file; distinct = distinct trace hash",
+		RequiredProbes: []string{"file-derived-by-migrate-diff", "diff-generated-rebuild", "temporary-table-created-and-dropped", "hand-written-rebuild-omitting-column", "additive-rebuild", "virtual-column-dropped", "additive-file-in-window"},
+		RequiredFaults: []string{"destructive/DS102", "destructive/DS103"},
+		Real:           []string{"the whole CLI binary (migrate lint with DevLoader, sqlcheck destructive analyzer, sqlitecheck, migrate diff)", "SQLite engine (dev database file)"},
+		Stub:           []string{"none"},
+		Assumptions:    []string{"no fault or schedule dimension in this property: the operation-sequence / reference-model half of the technique only (cleanliness of the dev database under failing statements during lint is C14)", "for SQLite's rebuild procedure any statement of the CREATE new_t / INSERT / DROP t / RENAME group is accepted as the causing statement"},
+		SimTimeUnit:    "migration files written",
 	})
 }
